@@ -52,19 +52,62 @@ def networks(tier, seed):
         out.append((g, 'dir', ['bin', 'real', 'int'][i % 3], i))
     for i, g in enumerate(und[::2] + [['named', 'complete', 7], ['named', 'complete', 10]]):
         out.append((g, 'signed', ['signed', 'signedint'][i % 2], i))
+    # one sign present only as a faint trace / all weights tiny: totals below any absolute tolerance
+    for i, g in enumerate(und[::3]):
+        out.append((g, 'signed', ['faintneg', 'faintpos', 'alltiny'][i % 3], i))
+    # the signed routines are documented for networks that happen to have no negative weights too
+    for i, g in enumerate(und[1::4]):
+        out.append((g, 'signed', ['real', 'int', 'bin'][i % 3], i))
+    # connection COUNTS: integer dtype, total weight far above 2**31
+    for i, g in enumerate(und[2::5]):
+        out.append((g, 'und', 'counts', i))
+    for i, g in enumerate(dr[2::5]):
+        out.append((g, 'dir', 'counts', i))
     return out
 
 
 def build_net(g, kind, w, ws, selfw=False):
     A = G.build(g)
     directed = kind == 'dir'
-    W = G.weigh(A, w, ws, symmetric=not directed)
+    if w == 'counts':
+        # total weight 4e9..8e9 (its square does not fit in int64) while every product of two node strengths still
+        # does (< 2**62): beyond that the unchanged library itself overflows in np.outer(k, k) -- see DESIGN 5.3
+        rs = np.random.RandomState(ws + 9)
+        E = max(1.0, float((A != 0).sum()))
+        tot = rs.uniform(4e9, 8e9)
+        Wt = (rs.uniform(.5, 1.0, size=A.shape) * tot / (0.75 * E)).astype(np.int64)
+        if not directed:
+            Wt = np.triu(Wt, 1)
+            Wt = Wt + Wt.T
+        W = (A.astype(np.int64) * Wt).astype(np.int64)
+        ko, ki = W.sum(1).astype(float), W.sum(0).astype(float)
+        if ko.max() * ki.max() >= 2.0 ** 62:
+            W = (W // 8).astype(np.int64)
+        return W
+    if w in ('faintneg', 'faintpos', 'alltiny'):
+        rs = np.random.RandomState(ws + 3)
+        W = G.weigh(A, 'int', ws, symmetric=True)
+        i, j = np.where(np.triu(A, 1))
+        if w == 'alltiny':
+            W = G.weigh(A, 'signed', ws, symmetric=True) * 1e-10
+        elif len(i):
+            e = rs.randint(len(i))
+            if w == 'faintneg':
+                W[i[e], j[e]] = W[j[e], i[e]] = -1e-9
+            else:
+                W = -W
+                W[i[e], j[e]] = W[j[e], i[e]] = 1e-9
+    else:
+        W = G.weigh(A, w, ws, symmetric=not directed)
     if kind == 'signed' and not (W > 0).any():
         W = np.abs(W)
     if selfw:
         rs = np.random.RandomState(ws + 5)
         W = W.copy()
-        W[np.arange(len(W)), np.arange(len(W))] = rs.rand(len(W)) * (rs.rand(len(W)) < .5)
+        d = rs.rand(len(W)) * (rs.rand(len(W)) < .5)
+        if kind == 'signed':   # signed networks may carry negative self-connections
+            d = d * rs.choice([-1.0, 1.0], size=len(W))
+        W[np.arange(len(W)), np.arange(len(W))] = d
     return W
 
 
